@@ -23,12 +23,13 @@ def mono(sc):
 
 
 def pending_controlled(sc, res):
-    """hypothesis of the proved/claimed domain: no package leaves a controlled trigger un-activated"""
+    """hypothesis of the proved theorems (C06_importer_finds_every_flow, C03_modular_equals_whole): no package leaves a
+    controlled trigger pending, i.e. every controlling site has a verdict (either one) at the end of its package's run"""
     for k in scope(sc):
         p, r = sc.pkgs[k], res[k]
         det = {e[0]: e[2] for e in r["map"] if e[1] == "D"}
         for t in p["trigs"]:
-            if t[5] >= 0 and det.get(t[5]) != 1:
+            if t[5] >= 0 and det.get(t[5]) is None:
                 return True
     return False
 
